@@ -43,7 +43,7 @@ EXHAUSTIVE_SUBSPACES = 'all histories of length <= 3 (thorough: 4) over a 13-ope
 EXHAUSTIVE = {"quick": False, "thorough": False}
 N_RANDOM = {"quick": 30000, "thorough": 1500000}
 FLAVS = ["async_gen", "async_class", "async_class_bare", "async_class_full", "async_class_asend", "async_class_proxy",
-         "async_class_future", "async_class_delegating"]
+         "async_class_future", "async_class_delegating", "async_class_bare_full"]
 
 STOP = "STOP"
 
@@ -357,7 +357,7 @@ def run_history(case, stats, scoped=None):
     model = CountIt([Item(k, (0, i), truth=k != 0) for i, k in enumerate(keys)])
     viols = []
     head = f"borrow under={case['flav']} keys={keys} ops={case['ops']}"
-    has_asend = case["flav"] in ("async_gen", "async_class_full", "async_class_asend")
+    has_asend = case["flav"] in ("async_gen", "async_class_full", "async_class_asend", "async_class_bare_full")
     counters = Counter()
 
     async def main():
